@@ -182,6 +182,137 @@ fn fixed_position_part(rep: &mut Report, seed: u64, n: usize, p_eval: usize, and
     }
 }
 
+pub struct SeedProbeOut {
+    pub key: String,
+    pub end: RunEnd,
+    pub sig: Option<String>,
+    pub sample: Value,
+    pub seeds_chosen: usize,
+    pub candidates: usize,
+    pub ok: bool,
+}
+
+/// Directed attack on the correlated-OT masking (property text: "correlated-OT correction is masked
+/// by a TCCR hash"): the corrupted party of a 2-party preprocessing sends only honestly computed
+/// messages but biases its own randomness - every base-OT seed k0 is chosen (tap) so that its PRG
+/// row has equal bits at the OT indices of one byte, i.e. up to eight extension columns coincide.
+/// From the honest party's Pi_LaAND message U and its own MACs / keys the attacker then computes,
+/// for every pair (a, b) of coinciding columns, T = U[a]^U[b]^M[y][a]^M[y][b]^K[y][a]^K[y][b] and
+/// tests T and T ^ (own global key). Alarm only if a candidate equals the honest party's global key.
+pub fn seed_collision_probe(i: usize, seed: u64) -> SeedProbeOut {
+    use crate::hooks::pv::{self, Pre};
+    use crate::sim::{self, PartyFut, SimCfg, SimChan};
+    let n = 2usize;
+    let c = i % 2;
+    let victim = 1 - c;
+    let l_and = [4usize, 5, 7, 12][(i / 2) % 4];
+    let b = pv::bucket_size(l_and);
+    let lprime = l_and * b;
+    let groups = (lprime / 8).min(2 + (i / 8) % 2); // bytes of every row that are forced to 0x00 / 0xff
+    let mut rng = ChaCha8Rng::seed_from_u64(seed ^ 0x5eed_c011 ^ (i as u64).wrapping_mul(0x9e3779b97f4a7c15));
+    let deltas: Vec<u128> = (0..n).map(|_| rng.random()).collect();
+    let chosen = std::rc::Rc::new(std::cell::Cell::new(0usize));
+    {
+        let f = chosen.clone();
+        let mut srng = ChaCha8Rng::seed_from_u64(rng.random());
+        crate::hooks::install_tap(Some(Box::new(move |site, party, idx, value| {
+            if site == "alsz.base_seed" && party == Some(c) && idx % 2 == 0 && value.len() == 16 {
+                for _ in 0..4_000_000u32 {
+                    let cand: [u8; 16] = srng.random();
+                    let row = pv::aes_rng_fill(cand, groups);
+                    if row.iter().all(|x| *x == 0 || *x == 0xff) {
+                        value.copy_from_slice(&cand);
+                        f.set(f.get() + 1);
+                        break;
+                    }
+                }
+            }
+        })));
+    }
+    crate::hooks::record_probes();
+    let (net, chans) = SimChan::new_set(n, None);
+    net.lock().unwrap().keep_bytes = true;
+    let res = {
+        let mut futs: Vec<PartyFut<'_, Result<usize, String>>> = vec![];
+        for p in 0..n {
+            let ch = &chans[p];
+            let delta = deltas[p];
+            futs.push(Box::pin(async move {
+                let mut pre = Pre::setup(ch, p, n, delta).await?;
+                let shares = pre.fashare(ch, 2 * l_and).await?;
+                let ab: Vec<_> = (0..l_and).map(|j| (shares[2 * j].clone(), shares[2 * j + 1].clone())).collect();
+                let z = pre.beaver_aand(ch, &ab).await?;
+                Ok(z.len())
+            }));
+        }
+        sim::run(&net, futs, &SimCfg::default())
+    };
+    crate::hooks::install_tap(None);
+    let probes = crate::hooks::probes_snapshot();
+    crate::hooks::clear_probes();
+    let outcome = |p: usize| match &res.outcomes[p] {
+        Outcome::Done(Ok(_)) => "Ok".to_string(),
+        Outcome::Done(Err(e)) => format!("Err:{}", crate::props::err_class(e)),
+        Outcome::Panic(_, l) => format!("Panic@{l}"),
+        _ => "Unfinished".into(),
+    };
+    let key = format!("seed-collision|c={c}|ands={l_and}|bucket={b}|bytes={groups}");
+    // attacker's view: its own x|y|r shares (MAC under the victim's key, own key for the victim's bit)
+    let share = |party: usize, idx: usize| -> Option<(bool, u128, u128)> {
+        let r = probes.iter().find(|r| r.site == "pre.xyz" && r.party == Some(party) && r.index == idx)?;
+        let peer = 1 - party;
+        let off = 1 + 32 * peer;
+        let m = u128::from_le_bytes(r.value.get(off..off + 16)?.try_into().ok()?);
+        let k = u128::from_le_bytes(r.value.get(off + 16..off + 32)?.try_into().ok()?);
+        Some((r.value[0] & 1 != 0, m, k))
+    };
+    // the victim's first Pi_LaAND message to the attacker
+    let u: Option<Vec<u128>> = {
+        let net = net.lock().unwrap();
+        let lab = net.labels.iter().position(|l| l == "flaand");
+        lab.and_then(|lab| net.msgs.iter().find(|m| m.from == victim && m.to == c && m.label as usize == lab))
+            .and_then(|m| m.wire.clone().or(Some(m.sent.clone())))
+            .and_then(|bytes| crate::codec::schema_for("flaand").and_then(|s| crate::codec::decode_all(&s, &bytes)))
+            .map(|v| {
+                let mut out = vec![];
+                crate::codec::u128_leaves(&v, &mut out);
+                out
+            })
+    };
+    let mut sig = None;
+    let mut candidates = 0usize;
+    let mut equal_keys = 0usize;
+    let mut hit: Option<Value> = None;
+    let mut ok = false;
+    if let Some(u) = &u {
+        if u.len() == lprime && chosen.get() >= 128 {
+            ok = true;
+            for g in 0..groups {
+                for a in 8 * g..8 * g + 8 {
+                    for bb in a + 1..8 * g + 8 {
+                        let (Some(ya), Some(yb)) = (share(c, lprime + a), share(c, lprime + bb)) else { ok = false; continue };
+                        let t = u[a] ^ u[bb] ^ ya.1 ^ yb.1 ^ ya.2 ^ yb.2;
+                        candidates += 2;
+                        if (t == deltas[victim] || t ^ deltas[c] == deltas[victim]) && hit.is_none() {
+                            hit = Some(json!({"columns": [a, bb], "candidate_needs_own_key": t != deltas[victim]}));
+                        }
+                        // informational: does the victim hold equal keys for the attacker's x bits?
+                        if let (Some(va), Some(vb)) = (share(victim, a), share(victim, bb)) {
+                            if va.2 == vb.2 { equal_keys += 1; }
+                        }
+                    }
+                }
+            }
+        }
+    }
+    if let Some(h) = &hit {
+        sig = Some(format!("a peer that only biases its own base-OT seeds (coinciding OT-extension columns) computes the honest party's global key from the Pi_LaAND message U and its own MACs / keys (6-element XOR); the party's own result={}", outcome(victim)));
+        let _ = h;
+    }
+    let sample = json!({"probe": "corrupted party chooses its base-OT seeds so that OT-extension columns coincide; all messages honestly computed", "n": n, "corrupt": c, "ands": l_and, "bucket": b, "leaky_triples": lprime, "row_bytes_forced": groups, "seeds_chosen": chosen.get(), "victim_result": outcome(victim), "attacker_result": outcome(c), "u_values": u.as_ref().map(|u| u.len()), "candidates_tested": candidates, "pairs_with_equal_victim_keys": equal_keys, "hit": hit});
+    SeedProbeOut { key, end: res.end, sig, sample, seeds_chosen: chosen.get(), candidates, ok }
+}
+
 pub fn run(tier: &str, seed: u64) -> i32 {
     let thorough = tier == "thorough";
     let mut rep = Report::new("C07", tier, seed, "fault_enumeration");
@@ -276,6 +407,36 @@ pub fn run(tier: &str, seed: u64) -> i32 {
             rep.sample(v.clone());
         }
     });
+    // directed attack: coinciding OT-extension columns (chosen base-OT seeds)
+    if crate::hooks::HOOKS_ON {
+        let n_sp = if thorough { 64 } else { 8 };
+        let outs = parallel_for(n_sp, threads(), |i| seed_collision_probe(i, seed));
+        let mut cands = 0u64;
+        let mut seeds = 0u64;
+        for o in outs {
+            rep.evaluations += 1;
+            match &o.end {
+                RunEnd::HarnessError(e) => { rep.harness_error(e.clone()); continue; }
+                RunEnd::StepLimit => { rep.inconclusive("step limit"); continue; }
+                _ => {}
+            }
+            if !o.ok {
+                rep.harness_error(format!("seed-collision probe {} did not reach the Pi_LaAND message or the seed tap did not fire: {}", o.key, o.sample));
+                continue;
+            }
+            cands += o.candidates as u64;
+            seeds += o.seeds_chosen as u64;
+            rep.distinct.insert(o.key.clone());
+            if let Some(s) = &o.sig {
+                rep.violation(s.clone(), o.sample.clone());
+            }
+            if rep.samples.len() < 4 {
+                rep.sample(o.sample);
+            }
+        }
+        rep.set("seed_collision_candidates_tested", json!(cands));
+        rep.set("seed_collision_base_seeds_chosen", json!(seeds));
+    }
     rep.set("windows_scanned_honest", json!(windows));
     rep.set("windows_scanned_adversarial", json!(adv_windows));
     rep.set("honest_runs_with_triple_scan", json!(triples));
